@@ -56,13 +56,23 @@ func (run *c20EpRun) abortText(cx *c20Ctx) (string, *c20St) {
 	if a.whyAt != nil {
 		at = " at " + cx.r.P.Rel(a.whyAt.Pos())
 	}
-	return strings.TrimPrefix(a.why, "loop:") + at, a
+	return strings.TrimPrefix(strings.TrimPrefix(a.why, "loop:"), "panic:") + at, a
 }
 
 // loopAbort returns a path aborted because a request sits in a loop.
 func (run *c20EpRun) loopAbort() *c20St {
 	for _, a := range run.aborted {
 		if strings.HasPrefix(a.why, "loop:") {
+			return a
+		}
+	}
+	return nil
+}
+
+// panicAbort returns a path on which the executor found a panic reachable with valid inputs.
+func (run *c20EpRun) panicAbort() *c20St {
+	for _, a := range run.aborted {
+		if strings.HasPrefix(a.why, "panic:") {
 			return a
 		}
 	}
